@@ -159,9 +159,9 @@ func c13Binding(c *C) {
 		"imported": {"/main.tpl": "{% import \"/lib/macros.tpl\" mac %}" + callSrc("mac"), "/lib/macros.tpl": "ignored text " + m.def("mac", true) + m.def("other", true)},
 		"aliased":  {"/main.tpl": "{% import \"lib/macros.tpl\" other, mac as alias %}" + callSrc("alias"), "/lib/macros.tpl": m.def("mac", true) + " " + m.def("other", true)},
 		// every order of aliased and plain entries in one import list
-		"alias-then-plain":       {"/main.tpl": "{% import \"lib/macros.tpl\" other as first, mac %}" + callSrc("mac"), "/lib/macros.tpl": m.def("mac", true) + " " + strings.Replace(m.def("other", true), "{% endmacro %}", "OTHER{% endmacro %}", 1)},
-		"alias-plain-alias":      {"/main.tpl": "{% import \"/lib/macros.tpl\" other as o1, mac, other as o2 %}" + callSrc("mac"), "/lib/macros.tpl": strings.Replace(m.def("other", true), "{% endmacro %}", "OTHER{% endmacro %}", 1) + m.def("mac", true)},
-		"two-aliases":            {"/main.tpl": "{% import \"/lib/macros.tpl\" mac as a1, other as a2 %}" + callSrc("a1"), "/lib/macros.tpl": strings.Replace(m.def("other", true), "{% endmacro %}", "OTHER{% endmacro %}", 1) + m.def("mac", true)},
+		"alias-then-plain":  {"/main.tpl": "{% import \"lib/macros.tpl\" other as first, mac %}" + callSrc("mac"), "/lib/macros.tpl": m.def("mac", true) + " " + strings.Replace(m.def("other", true), "{% endmacro %}", "OTHER{% endmacro %}", 1)},
+		"alias-plain-alias": {"/main.tpl": "{% import \"/lib/macros.tpl\" other as o1, mac, other as o2 %}" + callSrc("mac"), "/lib/macros.tpl": strings.Replace(m.def("other", true), "{% endmacro %}", "OTHER{% endmacro %}", 1) + m.def("mac", true)},
+		"two-aliases":       {"/main.tpl": "{% import \"/lib/macros.tpl\" mac as a1, other as a2 %}" + callSrc("a1"), "/lib/macros.tpl": strings.Replace(m.def("other", true), "{% endmacro %}", "OTHER{% endmacro %}", 1) + m.def("mac", true)},
 		// the library is itself a child template; its base exports another macro under the same name (and others)
 		"imported-from-a-library-that-extends": {"/main.tpl": "{% import \"/lib/macros.tpl\" mac %}" + callSrc("mac"), "/lib/macros.tpl": "{% extends \"/lib/base.tpl\" %}" + m.def("mac", true) + "{% block libb %}x{% endblock %}",
 			"/lib/base.tpl": "{% macro mac() export %}BASE-MACRO{% endmacro %}{% macro other(a, b, c, d, e, f) export %}BASE-OTHER{% endmacro %}{% block libb %}{% endblock %}"},
